@@ -32,12 +32,15 @@ MANIFEST = dict(
         design="5/C15")
 CFG = {
     "quick":    dict(mc=["MC_RefCount.cfg"], gen=["Gen_RefCount.cfg"], nhist=160, steps=50),
-    # thorough: 3 handles for the structurally different kinds, the four kinds that behave like rawdata at 2 handles;
-    # the unconstrained reply-context model (retries x cleared send callback x everything) as a run of its own
-    "thorough": dict(mc=["MC_RefCount_t.cfg", "MC_RefCount_r.cfg"], gen=["Gen_RefCount_t.cfg", "Gen_RefCount_t2.cfg"],
+    # thorough: the quick export (all 13 kinds, 2 handles) plus 3 handles for buffers (both makes, nesting), a plain
+    # shareable metatype, a non-shareable one and reference<T>; model checking: 3 handles x 2 objects for five classes,
+    # 3 x 3 for buffers and non-shareable metatypes, and the reply-context model (retries x cleared send callback)
+    "thorough": dict(mc=["MC_RefCount_t.cfg", "MC_RefCount_n.cfg", "MC_RefCount_r.cfg"], gen=["Gen_RefCount.cfg", "Gen_RefCount_t.cfg"],
                      nhist=1600, steps=70),
 }
-KINDS = ["buf", "hmeta", "reply", "rawdata", "stream", "outlocal", "outremote", "iterfile", "geninfo", "metabuf", "cxxref", "bare"]
+KINDS = ["buf", "hmeta", "reply", "rawdata", "stream", "outlocal", "outremote", "iterfile", "geninfo", "metabuf", "metanew", "cxxref", "bare"]
+TEXTLENS = [0, 1, 249, 250, 254, 255, 256, 1000]
+NESTABLE = ("buf", "hmeta", "cxxref")
 T_NH, T_NOBJ, T_MAX, T_EXTRA = 4, 8, 1000, 3      # constants of Trace_RefCount.cfg
 
 
@@ -65,9 +68,13 @@ def match(exp, obs, step, rec, prev):
         return "alive: expected %s, observed %s" % (exp["alive"], obs.get("alive"))
     if sorted(obs.get("gone") or []) != sorted(exp["gone"]):
         return "gone: expected destroyed %s, observed %s" % (exp["gone"], obs.get("gone"))
-    for k in ("href", "copy", "cnt", "shared", "bare", "badfree"):
+    for k in ("href", "copy", "inner", "cnt", "bare", "badfree"):
         if obs.get(k) != exp[k]:
             return "%s: expected %s, observed %s" % (k, exp[k], obs.get(k))
+    # shared flag: every live buffer shows it (all -1 otherwise); a metatype only when it exposes a text buffer
+    for e, o in zip(exp["shared"], obs.get("shared") or []):
+        if e != o and (step.get("_kind") == "buf" or (e != -1 and o != -1)):
+            return "shared: expected %s, observed %s" % (exp["shared"], obs.get("shared"))
     if exp["val"] != -1 and obs.get("val") != exp["val"]:
         return "val: expected %s, observed %s" % (exp["val"], obs.get("val"))
     if exp["quiet"] == 0 and obs.get("quiet") != 0:
@@ -92,9 +99,9 @@ def kind_of(beh):
 # ---------------------------------------------------------------------------
 COPY_VIAS = {"buf": ["clone", "traits", "cxx", "cxxctor"], "cxxref": ["cxx", "cxxctor"]}
 DROP_VIAS = {"buf": ["clone", "fini", "raw", "cxx"], "cxxref": ["cxx"]}
-META = ("hmeta", "reply", "rawdata", "stream", "geninfo", "metabuf", "outlocal", "outremote", "iterfile")
+META = ("hmeta", "reply", "rawdata", "stream", "geninfo", "metabuf", "metanew", "outlocal", "outremote", "iterfile")
 SHARABLE = ("buf", "hmeta", "reply", "rawdata", "stream", "cxxref", "outlocal", "outremote", "iterfile")
-CLONABLE = ("hmeta", "geninfo", "metabuf", "iterfile")
+CLONABLE = ("hmeta", "geninfo", "metabuf", "metanew", "iterfile")
 
 
 class Ideal:
@@ -105,6 +112,7 @@ class Ideal:
         self.x = [0] * (T_NOBJ + 1)
         self.d = [0] * (T_NOBJ + 1)
         self.cnt = [0] * (T_NOBJ + 1)
+        self.inn = [0] * (T_NOBJ + 1)
         self.snd = [True] * (T_NOBJ + 1)
         self.made = 0
 
@@ -115,11 +123,38 @@ class Ideal:
         if o:
             last = self.cnt[o] <= 1 or self.k not in SHARABLE
             self.cnt[o] = 0 if last else self.cnt[o] - 1
-            if not last and not detached and self.k == "reply":
+            if last:
+                t, self.inn[o] = self.inn[o], 0
+                self.lower(t)
+            elif not detached and self.k == "reply":
                 self.snd[o] = False
 
     def hrefs(self, o):
         return self.h.count(o) + (self.c.count(o) if self.c else 0)
+
+    def base(self, o):
+        return self.hrefs(o) + self.d[o] + sum(1 for p in range(1, self.made + 1) if self.cnt[p] > 0 and self.inn[p] == o)
+
+    def reaches(self, a, b):
+        while a:
+            if a == b:
+                return True
+            a = self.inn[a]
+        return False
+
+    def assign(self, via, t, old):
+        """new referent t replaces old; returns 'same' | 'refused' | 'cleared' | 'ok'"""
+        if t == old:
+            return "same"
+        if t and not self.can(t):
+            if via in ("cxx", "cxxctor"):
+                self.lower(old)
+                return "cleared"
+            return "refused"
+        if t:
+            self.cnt[t] += 1
+        self.lower(old)
+        return "ok"
 
 
 def gen_histories(ck, n, steps):
@@ -128,7 +163,9 @@ def gen_histories(ck, n, steps):
     for b in range(n):
         k = KINDS[b % len(KINDS)] if b % 3 else rng.choice(KINDS[:-1])
         m = Ideal(k)
-        beh = [{"a": "init", "arg": {"kind": k, "nh": T_NH, "nobj": T_NOBJ, "max": T_MAX}}]
+        tlen = rng.choice(TEXTLENS) if k == "metanew" else rng.choice([0, 8]) if k == "buf" else 0
+        nestable = k in NESTABLE and (k != "buf" or tlen > 0)
+        beh = [{"a": "init", "arg": {"kind": k, "nh": T_NH, "nobj": T_NOBJ, "max": T_MAX, "tlen": tlen}}]
         if k == "bare":
             for _ in range(steps):
                 op = rng.choice(["bareset", "bareraise", "bareraise", "barelower", "barelower"])
@@ -136,13 +173,14 @@ def gen_histories(ck, n, steps):
                     beh.append({"a": op, "arg": {"v": rng.choice([0, 1, 2, 3, T_MAX - 2, T_MAX - 1, T_MAX])}})
                 else:
                     beh.append({"a": op, "arg": {"api": rng.choice(["c", "cxx"])}})
+            beh.append({"a": "teardown", "arg": {"x": 0}})
             behs.append(beh)
             continue
         cv = COPY_VIAS.get(k, ["conv", "value", "valueptr", "traits", "cxx", "cxxctor"])
         dv = DROP_VIAS.get(k, ["conv", "value", "fini", "raw", "cxx"])
         for _ in range(steps):
             ops = ["create"] * 3 + ["copy"] * 8 + ["drop"] * 4 + ["move"] * 2 + ["detach", "adopt", "adopt", "rawref", "rawunref",
-                   "rawunref", "arrcopy", "arrdrop", "arrdrop", "clone", "unshare", "unshare", "poke", "unpoke", "unpoke", "defer", "defer", "undefer", "undefer", "undefer", "reply"]
+                   "rawunref", "arrcopy", "arrdrop", "arrdrop", "clone", "unshare", "unshare", "nest", "nest", "nest", "poke", "unpoke", "unpoke", "defer", "defer", "undefer", "undefer", "undefer", "reply"]
             op = rng.choice(ops)
             alive = [o for o in range(1, m.made + 1) if m.cnt[o] > 0]
             if k == "reply" and op in ("poke", "unpoke", "unshare", "clone") and rng.random() < 0.8:
@@ -155,27 +193,39 @@ def gen_histories(ck, n, steps):
                 m.made += 1
                 m.h[i] = m.made
                 m.cnt[m.made] = 1
-                beh.append({"a": "create", "arg": {"h": i + 1}})
+                beh.append({"a": "create", "arg": {"h": i + 1, "len": tlen}})
             elif op == "copy":
                 i, g = rng.randrange(T_NH), rng.randrange(T_NH)
                 via = rng.choice(cv)
+                sin = 1 if (nestable and m.h[g] and rng.random() < 0.4) else 0
                 if via in ("traits", "cxxctor") and m.h[i]:
                     continue
-                t, o = m.h[g], m.h[i]
-                beh.append({"a": "copy", "arg": {"h": i + 1, "g": g + 1, "via": via}})
+                t, o = (m.inn[m.h[g]] if sin else m.h[g]), m.h[i]
+                beh.append({"a": "copy", "arg": {"h": i + 1, "g": g + 1, "via": via, "sin": sin}})
                 if t == o:
                     if o and k == "reply" and via in ("conv", "value", "valueptr") and m.can(o):
                         m.snd[o] = False
                     continue
-                if t and not m.can(t):
-                    if via in ("cxx", "cxxctor"):
-                        m.lower(o)
-                        m.h[i] = 0
+                r = m.assign(via, t, o)
+                if r == "cleared":
+                    m.h[i] = 0
+                elif r == "ok":
+                    m.h[i] = t
+            elif op == "nest":
+                hs = [i for i in range(T_NH) if m.h[i]]
+                if not nestable or not hs:
                     continue
-                if t:
-                    m.cnt[t] += 1
-                m.lower(o)
-                m.h[i] = t
+                i, g = rng.choice(hs), rng.randrange(T_NH)
+                a_, t = m.h[i], m.h[g]
+                if t and m.reaches(t, a_):
+                    continue
+                via = rng.choice([v for v in cv if v not in ("traits", "cxxctor")])
+                beh.append({"a": "nest", "arg": {"h": i + 1, "g": g + 1, "via": via}})
+                r = m.assign(via, t, m.inn[a_])
+                if r == "cleared":
+                    m.inn[a_] = 0
+                elif r == "ok":
+                    m.inn[a_] = t
             elif op == "drop":
                 i = rng.randrange(T_NH)
                 beh.append({"a": "drop", "arg": {"h": i + 1, "via": rng.choice(dv)}})
@@ -251,8 +301,12 @@ def gen_histories(ck, n, steps):
                     continue
                 beh.append({"a": "unshare", "arg": {"h": i + 1, "via": rng.choice(["vptr", "reserve"])}})
                 if m.cnt[o] > 1:
-                    m.cnt[o] -= 1
+                    t = m.inn[o]
                     m.made += 1
+                    if t and m.can(t):
+                        m.cnt[t] += 1
+                        m.inn[m.made] = t
+                    m.cnt[o] -= 1
                     m.h[i] = m.made
                     m.cnt[m.made] = 1
             elif op == "clone":
@@ -272,7 +326,7 @@ def gen_histories(ck, n, steps):
                 if k not in ("hmeta", "cxxref") or not alive:
                     continue
                 o = rng.choice(alive)
-                base = m.hrefs(o) + m.d[o]
+                base = m.base(o)
                 v = rng.choice([T_MAX, T_MAX - 1, T_MAX - 1]) if op == "poke" else base
                 if v < 1 or v < base:
                     continue
@@ -284,8 +338,9 @@ def gen_histories(ck, n, steps):
                 if k != "reply" or not os_:
                     continue
                 o = rng.choice(os_)
-                beh.append({"a": "defer", "arg": {"o": o}})
-                if m.can(o):
+                armed = rng.choice([0, 1, 1, 1])
+                beh.append({"a": "defer", "arg": {"o": o, "armed": armed}})
+                if armed and m.can(o):
                     m.cnt[o] += 1
                     m.d[o] += 1
             elif op == "undefer":
@@ -302,6 +357,10 @@ def gen_histories(ck, n, steps):
                 if k != "reply" or not alive:
                     continue
                 beh.append({"a": "reply", "arg": {"o": rng.choice(alive), "msg": rng.choice([0, 1]), "accept": rng.choice([0, 1])}})
+        for o in range(1, m.made + 1):             # no teardown while a counter is written up to MAX-k
+            if m.cnt[o] > T_MAX // 2:
+                beh.append({"a": "poke", "arg": {"o": o, "v": max(m.base(o), 1)}})
+        beh.append({"a": "teardown", "arg": {"x": 0}})
         behs.append(beh)
     return behs
 
@@ -398,6 +457,9 @@ def run(tier):
         gen.out = ""
         vlib.log("C15 %s: %d behaviours exported in %.1fs" % (g, len(part), gen.wall))
         behs += part
+    for beh in behs:                      # the projection of the shared flag depends on the kind of the behaviour
+        for st in beh:
+            st["_kind"] = kind_of(beh)
     recs = vseam.run_parallel(exe, behs, nproc=6)
     by = vlib.group_records(recs)
     mms = vseam.recheck_transient(exe, behs, vlib.compare(behs, recs, match), match)
@@ -453,12 +515,19 @@ def run(tier):
                       "the seam (all mptcore, mptplot rawdata/values, mpt++/refcount_wrap.cpp) are the code that ships",
                       "use-after-release is observed by ASan on every executed call, not proved",
                       "UINTPTR_MAX is represented symbolically (values above Max/2 mean MAX-k); the model is bounded (see cfgs)"]
+    # extension X15: counted objects that own counted objects (checks/x15_owned.py, docs/X15_owned.md)
+    import x15_owned
+    if x15_owned.enabled():
+        x15_owned.run_part(ck, tier)
     return ck.finish()
 
 
 def replay(path):
     d = json.load(open(path))
     det = d["detail"]
+    if det.get("x15"):
+        import x15_owned
+        return x15_owned.replay(det, path)
     beh = det.get("behaviour")
     if not beh:
         print(json.dumps(det, indent=1)[:4000])
@@ -467,6 +536,8 @@ def replay(path):
     recs, err = vlib.run_driver(exe, vlib.to_script([beh]))
     if all("exp" in s for s in beh):
         rc = 0
+        for st in beh:
+            st["_kind"] = kind_of(beh)
         for mm in vlib.compare([beh], recs, match):
             print("VIOLATION property=%s replay=%s  (%s: %s)" % (PID, path, sig_of(kind_of(beh), mm["step"], mm["why"]), mm["why"]))
             rc = 1
